@@ -212,10 +212,12 @@ where
                 ok = false;
             }
             // C15: preparing never moves the position of a chunk (only a later, empty chunk may become current)
-            for old in &before.typed.fwd {
+            // chunks after the old current one are logically empty (their stale positions may be
+            // reset while walking), so only the chunks up to the old current one are compared
+            let upto = before.typed.cur.and_then(|c| before.typed.fwd.iter().position(|x| x.chunk_start == c.chunk_start)).map_or(0, |i| i + 1);
+            for old in &before.typed.fwd[..upto] {
                 if let Some(n) = now.typed.fwd.iter().find(|x| x.chunk_start == old.chunk_start) {
-                    let is_new_current = Some(n.chunk_start) == now.typed.cur.map(|c| c.chunk_start) && Some(n.chunk_start) != before.typed.cur.map(|c| c.chunk_start);
-                    if n.pos != old.pos && !is_new_current {
+                    if n.pos != old.pos {
                         ctx.viol("C15", "prepare_moved_position".into(), format!("chunk {:#x}: {:#x} -> {:#x}", n.chunk_start, old.pos, n.pos));
                     }
                 }
